@@ -3103,6 +3103,11 @@ DF_SOURCES = [
     ("folded-casts-to-int-in-two-blocks", "export function f(int a, float x) -> int { int r = a + int(2.0); if (x > 1.0) { r = r * int(3.0); } return r - int(1.0); }\n", {"a": 4, "x": 5.0}, {}),
     ("folded-casts-same-value-in-two-blocks", "export function f(int a, float x) -> float { float r = x * 2; if (a > 0) { r = r + 2; } return r - 2; }\n", {"a": 1, "x": 5.0}, {}),
     ("loop-carried-local-stored-then-read", "export function f(int a) -> int { int total = 0; int prev = 1; for (int i = 0; i < a; ++i) { total = total + prev; prev = i + 1; total = prev + total; } return total; }\n", {"a": 3}, {}),
+    ("declaration-from-variable-stored-at-the-end-of-a-loop-body", "export function f(int a) -> int { int acc = a; for (int i = 0; i < 3; ++i) { int t = acc; acc = t + t; } return acc; }\n", {"a": 3}, {}),
+    ("declaration-from-variable-stored-at-the-end-of-an-if-body", "export function f(int a) -> int { int acc = a; if (a > 0) { int t = acc; int u = t; acc = u + 1; } return acc; }\n", {"a": 3}, {}),
+    ("declaration-from-global-stored-at-the-end-of-a-void-function", "float g;\nfunction bump(float k) -> void { float t = g; g = t * k; }\nexport function f(float k) -> float { bump(k); bump(k); return g; }\n", {"k": 3.0}, {"g": 2.0}),
+    ("declarations-then-load-then-store-in-do-body", "export function f(int a) -> int { int acc = 1; do { int s; int t = acc; acc = t * 2 + s; } while (acc < a) return acc; }\n", {"a": 20}, {}),
+    ("declaration-from-parameter-stored-at-the-end", "function w(int p) -> void { int t = p; p = t + 1; }\nexport function f(int a) -> int { w(a); int t = a; a = t + t; return a; }\n", {"a": 3}, {}),
     ("import-of-nothing", "import \"does_not_exist\";\nexport function f(int a) -> int { return a; }\n", {"a": 3}, {}),
     ("only-declarations", "int g;\nstruct A { int x; }\n", None, {}),
     ("only-a-struct", "struct A { int x; }\n", None, {}),
